@@ -92,7 +92,7 @@ Qed.
    Not validated by Go: height > 0 and both scale factors > 0 are needed (with a negative factor
    the per-height scale 1/(mix(1, 1/s, t)) has a pole inside the extrusion). *)
 Lemma factor_inv (h s z : R) : 0 < h -> 0 < s -> - (h / 2) <= z <= h / 2 ->
-  let f := (1 / s - 1) / h * z + (1 / s * (1 / (1 + 1)) + 1 / (1 + 1)) in
+  let f := (1 / s - 1) * (1 / h) * z + (1 / s * (1 / (1 + 1)) + 1 / (1 + 1)) in
   0 < f /\ Rmin 1 s <= 1 / f <= Rmax 1 s.
 Proof.
   intros Hh Hs Hz f. set (t := z / h + / 2).
@@ -147,8 +147,8 @@ Proof.
     match type of Hp with Rmax (ev2 s ?q) _ < 0 => destruct (Hs q ltac:(lra)) as [Ix Iy] end. cbn in Ix, Iy.
     destruct (factor_inv h (vx sc) (wz p) Hh Hsx ltac:(lra)) as [Fx Gx].
     destruct (factor_inv h (vy sc) (wz p) Hh Hsy ltac:(lra)) as [Fy Gy]. cbv zeta in *.
-    set (fx := (1 / vx sc - 1) / h * wz p + (1 / vx sc * (1 / (1 + 1)) + 1 / (1 + 1))) in *.
-    set (fy := (1 / vy sc - 1) / h * wz p + (1 / vy sc * (1 / (1 + 1)) + 1 / (1 + 1))) in *.
+    set (fx := (1 / vx sc - 1) * (1 / h) * wz p + (1 / vx sc * (1 / (1 + 1)) + 1 / (1 + 1))) in *.
+    set (fy := (1 / vy sc - 1) * (1 / h) * wz p + (1 / vy sc * (1 / (1 + 1)) + 1 / (1 + 1))) in *.
     assert (Gx0 : 0 < 1 / fx) by (apply Rdiv_lt_0_compat; lra).
     assert (Gy0 : 0 < 1 / fy) by (apply Rdiv_lt_0_compat; lra).
     pose proof (scaled_between _ _ _ _ _ Ix Gx0 Gx) as Bx. pose proof (scaled_between _ _ _ _ _ Iy Gy0 Gy) as By.
@@ -185,8 +185,8 @@ Proof.
   destruct (factor_inv h (vx sc) (wz p) Hh Hsx ltac:(lra)) as [Fx Gx].
   destruct (factor_inv h (vy sc) (wz p) Hh Hsy ltac:(lra)) as [Fy Gy]. cbv zeta in *.
   cbn in Hq.
-  set (fx := (1 / vx sc - 1) / h * wz p + (1 / vx sc * (1 / (1 + 1)) + 1 / (1 + 1))) in *.
-  set (fy := (1 / vy sc - 1) / h * wz p + (1 / vy sc * (1 / (1 + 1)) + 1 / (1 + 1))) in *.
+  set (fx := (1 / vx sc - 1) * (1 / h) * wz p + (1 / vx sc * (1 / (1 + 1)) + 1 / (1 + 1))) in *.
+  set (fy := (1 / vy sc - 1) * (1 / h) * wz p + (1 / vy sc * (1 / (1 + 1)) + 1 / (1 + 1))) in *.
   assert (Gx0 : 0 < 1 / fx) by (apply Rdiv_lt_0_compat; lra).
   assert (Gy0 : 0 < 1 / fy) by (apply Rdiv_lt_0_compat; lra).
   pose proof (abs_le_len2_x (mkV2 (wx p * fx) (wy p * fy))) as X.
@@ -281,7 +281,9 @@ Proof.
   pose proof (lbinf2_elim s0 _ H0 O0) as (A0 & B0 & C0 & D0). pose proof (lbinf2_elim s1 _ H1 O1) as (A1 & B1 & C1 & D1).
   cbn in A0, B0, C0, D0, A1, B1, C1, D1. unfold mix. change (oadd ROps) with Rplus. change (omul ROps) with Rmult.
   change (osub ROps) with Rminus.
-  match goal with |- context [@clamp ROps ?x ?a ?b] => set (k := @clamp ROps x a b) in *; assert (Hk : 0 <= k <= 1) by apply (clamp_bounds01 x) end.
+  match goal with |- context [if ?c then ?e else @clamp ROps ?x ?a ?b] =>
+    set (k := if c then e else @clamp ROps x a b) in *;
+    assert (Hk : 0 <= k <= 1) by (unfold k; destruct c; [lra | apply (clamp_bounds01 x)]) end.
   set (a0 := ev2 s0 _) in *. set (a1 := ev2 s1 _) in *.
   assert (M : forall v : R, v <= a0 -> v <= a1 -> v <= a0 + k * (a1 - a0)).
   { intros v V0 V1. assert (0 <= (1 - k) * (a0 - v)) by (apply Rmult_le_pos; lra).
@@ -310,7 +312,9 @@ Proof.
   split; cbn [bb3 ev3]; [unfold ordered3; cbn; lra|].
   intros p Hp. apply rounded_neg0 in Hp. destruct Hp as [Ha Hb].
   unfold mix in Ha. change (oadd ROps) with Rplus in Ha. change (omul ROps) with Rmult in Ha. change (osub ROps) with Rminus in Ha.
-  match type of Ha with context [@clamp ROps ?x ?a ?b] => set (k := @clamp ROps x a b) in *; assert (Hk : 0 <= k <= 1) by apply (clamp_bounds01 x) end.
+  match type of Ha with context [if ?c then ?e else @clamp ROps ?x ?a ?b] =>
+    set (k := if c then e else @clamp ROps x a b) in *;
+    assert (Hk : 0 <= k <= 1) by (unfold k; destruct c; [unfold k05, half, two; cbn; lra | apply (clamp_bounds01 x)]) end.
   set (a0 := ev2 s0 _) in *. set (a1 := ev2 s1 _) in *.
   assert (Az : Rabs (wz p) < h / 2) by (cbn in Hb; lra). apply Rabs_lt_inv in Az.
   assert (Hor : a0 < 0 \/ a1 < 0).
